@@ -85,6 +85,14 @@ def main(path):
         bad = (raised != want) and not (want == "*" and raised is not None)
         detail = f"code raised {raised}, oracle expects {want}"
         return ("reproduced" if bad else "not-reproduced"), detail
+    if label == "__shape__":
+        # the symbolic run returned arrays of another shape than the oracle: does the real code, too?
+        ko = {k for k, _ in flatten(out) if not k[0].startswith("_")}
+        kr = {k for k, _ in flatten(ref) if not k[0].startswith("_")}
+        if ko != kr:
+            return "reproduced", (f"code returns {len(ko)} elements, oracle {len(kr)}; only in code: {sorted(ko - kr)[:3]}, "
+                                  f"only in oracle: {sorted(kr - ko)[:3]}")
+        return "not-reproduced", "the real code returns the oracle's shape"
     if label == "__raises__":
         # the symbolic run ended in an exception (e.g. an exact division by zero where IEEE arithmetic gives
         # inf / nan) but the real code returns: compare everything it returns with the oracle
